@@ -229,7 +229,9 @@ def pipeline_traces(ck, dev, cor, big, seed):
         if v["accepted"]:
             continue
         detail = f"whole run '{r['name']}' is not a behaviour of Pipeline: event {v['consumed'] + 1} of {v['events']} ({v['next_event']}): {v['why']}"
-        if v["owner"] == "C20":
+        corrupt_run = r["name"] not in ("valid", "layered", "layered-private", "layered+valid", "repo-example")
+        if v["owner"] == "C20" or (v["owner"] == "C10" and corrupt_run):
+            # a page name handed out differently from the model in a run with a rejected file: the file's names were taken (Containment)
             ck.violation("pipeline-trace", {"run": r["name"]}, observed=v["next_event"], detail=detail)
         else:
             raise tlc.TLCFailure(detail + " - not a C20 clause: the as-built stage model of spec/Pipeline.tla no longer describes the code"
